@@ -10,8 +10,17 @@ binary_search for x on the same vector with no mutation in between."""
 import re
 from . import models
 
-SD, S, U = 0, 1, 2
-NAMES = {SD: 'sorted+unique', S: 'sorted', U: 'unordered'}
+SD, S, U, UQ = 0, 1, 2, 3          # UQ: duplicate-free but not (known to be) sorted
+NAMES = {SD: 'sorted+unique', S: 'sorted', U: 'unordered', UQ: 'unique, unordered'}
+
+
+def worse(state, req):
+    """does `state` fail the requirement `req` (SD or S)?"""
+    if req == SD:
+        return state != SD
+    if req == S:
+        return state not in (SD, S)
+    return False
 
 SORTS = ('sort', 'sort_unstable')
 KEEP = ('remove', 'pop', 'truncate', 'retain', 'shrink_to_fit', 'shrink_to', 'reserve', 'reserve_exact', 'drain', 'split_off')
@@ -42,13 +51,20 @@ def search_index(idx):
 
 def apply(state, op, found_only_insert=False):
     if op in SORTS:
-        return min(state, S) if state != U else S
+        return {SD: SD, S: S, U: S, UQ: SD}[state]
     if op == 'dedup':
-        return SD if state in (S, SD) else U
+        return {SD: SD, S: SD, U: U, UQ: UQ}[state]
     if op in KEEP:
         return state
     if op in EMPTY:
         return SD
+    return U
+
+
+def push_state(state, not_contained):
+    """appending one element; `not_contained`: the path established that the collection does not contain it"""
+    if not_contained and state in (SD, UQ):
+        return UQ
     return U
 
 
@@ -123,10 +139,11 @@ def of_value(px, st, v, facts=None):
             empty = False
             why.append('insert@search' if ok else 'insert')
         elif op in ('push', 'extend', 'extend_from_slice', 'append'):
-            state = U
+            nc = op == 'push' and facts is not None and bool(args) and not_contained_fact(px, facts, lambda x: strip_ref(x) == cur, args[0])
+            state = push_state(state, nc) if op == 'push' else U
             if op == 'push':
                 empty = False
-            why.append(op)
+            why.append(op + ('(absent)' if nc else ''))
         else:
             state = apply(state, op)
             if op in EMPTY or op in ('remove', 'pop', 'truncate', 'retain', 'drain', 'split_off'):
@@ -134,6 +151,21 @@ def of_value(px, st, v, facts=None):
             why.append(op)
         cur = m
     return Result(state, empty, why)
+
+
+def not_contained_fact(px, facts, is_coll, elem):
+    """is there a decided fact `contains(collection, &elem) == False` (or a failed binary search for elem) on this path?"""
+    e = strip_ref(elem)
+    for k, val in facts.items():
+        if k[0] == 'pure' and last(k[1]) == 'contains' and len(k[2]) == 2 and val is False:
+            if is_coll(k[2][0]) and strip_ref(k[2][1]) == e:
+                return True
+        if k[0] == 'tag' and is_search(k[1]) and val == 'neg':
+            c = k[1]
+            snap = c[4] if len(c) > 4 else None
+            if snap and is_coll(snap[0]) and strip_ref(snap[1]) == e:
+                return True
+    return False
 
 
 def known_nonempty(px, facts, base):
@@ -201,10 +233,17 @@ def fold_events(px, st, events, place, init, init_empty=True):
             empty = False
             why.append('insert@search' if ok else 'insert')
         elif op in ('push', 'extend', 'extend_from_slice', 'append'):
-            state = U
+            def is_coll(x, place=place):
+                try:
+                    return models.vec_place(px, st, x) == place
+                except Exception:
+                    return False
+            nc = op == 'push' and len(args) >= 2 and not_contained_fact(px, st.facts, is_coll, args[1]) and not any(
+                ev2[0] == 'call' and models.MUTATOR_RE.search(ev2[1]) and last(ev2[1]) not in NOT_OPS and ev2[2] and models.vec_place(px, st, ev2[2][0]) == place for ev2 in events[:i])
+            state = push_state(state, nc) if op == 'push' else U
             if op == 'push':
                 empty = False
-            why.append(op)
+            why.append(op + ('(absent)' if nc else ''))
         else:
             state = apply(state, op)
             if op in EMPTY or op in ('remove', 'pop', 'truncate', 'retain', 'drain', 'split_off'):
